@@ -49,6 +49,7 @@ func vStateAddr(id byte) common.InternalAddress {
 }
 
 var vSlot = common.BytesToHash([]byte{0x51})
+var vSlot2 = common.BytesToHash([]byte{0x52})
 
 func newModelStateDB() *StateDB {
 	return &StateDB{
@@ -100,6 +101,7 @@ type accObs struct {
 	codeHash               common.Hash
 	code                   []byte
 	state, committed, tr   common.Hash
+	tr2                    common.Hash
 	inAL, slotAL           bool
 }
 
@@ -125,6 +127,7 @@ func observe(s *StateDB) stObs {
 		}
 		ao.codeHash, ao.code = s.GetCodeHash(a), s.GetCode(a)
 		ao.state, ao.committed, ao.tr = s.GetState(a, vSlot), s.GetCommittedState(a, vSlot), s.GetTransientState(a, vSlot)
+		ao.tr2 = s.GetTransientState(a, vSlot2)
 		ao.inAL = s.AddressInAccessList(a.Bytes20())
 		_, ao.slotAL = s.SlotInAccessList(a.Bytes20(), vSlot)
 	}
@@ -166,6 +169,7 @@ func assertSameObs(o0, o1 stObs) {
 		vAssert("revert/storage", a.state == b.state)
 		vAssert("revert/committed-storage", a.committed == b.committed)
 		vAssert("revert/transient-storage", a.tr == b.tr)
+		vAssert("revert/other-transient-slot-untouched", a.tr2 == b.tr2)
 		vAssert("revert/access-list-address", a.inAL == b.inAL)
 		vAssert("revert/access-list-slot", a.slotAL == b.slotAL)
 	}
@@ -217,13 +221,21 @@ func applyOp(s *StateDB, op int, t common.InternalAddress, sfx string) {
 	}
 }
 
-func vPreState() *StateDB {
+func vPreState(transient bool) *StateDB {
 	s := newModelStateDB()
 	vLiveObject(s, vStateAddr(1), "a", true)
 	if vBool("bLive") {
 		vLiveObject(s, vStateAddr(2), "b", false)
 	}
 	s.refund = vU64("refund")
+	// transient storage written earlier in the transaction by frames that do not revert: none, the
+	// slot under test, another slot, or both
+	if transient && vBool("aTransientSlotSet") {
+		s.transientStorage.Set(vStateAddr(1), vSlot, common.BytesToHash(vBytes("aTransient", 32)))
+	}
+	if transient && vBool("aOtherTransientSlotSet") {
+		s.transientStorage.Set(vStateAddr(1), vSlot2, common.BytesToHash(vBytes("aOtherTransient", 32)))
+	}
 	if vBool("aInAccessList") {
 		s.accessList.AddAddress(vStateAddr(1).Bytes20())
 	}
@@ -238,10 +250,10 @@ func vPreState() *StateDB {
 // its value before. By induction over the journal (revert replays entries in reverse) this covers
 // sequences of any length.
 func VerifH_C12_a() {
-	s := vPreState()
-	o0 := observe(s)
 	op := vLen("op", len(opNames)-1)
 	vFact("op", opNames[op])
+	s := vPreState(opNames[op] == "SetTransientState")
+	o0 := observe(s)
 	target := vStateAddr(byte(1 + vLen("target", 2)))
 	id := s.Snapshot()
 	applyOp(s, op, target, "")
